@@ -579,7 +579,7 @@ pub fn parse_date_yyyymmdd(input: &str) -> Result<NaiveDate, ParseError> {
 
 /// Parse time in HHMM format
 pub fn parse_time_hhmm(input: &str) -> Result<NaiveTime, ParseError> {
-    if input.len() != 4 {
+    if input.len() != 4 || !input.is_ascii() {
         return Err(ParseError::InvalidFormat {
             message: format!(
                 "Time must be in HHMM format (4 digits), found {} characters",
@@ -606,7 +606,7 @@ pub fn parse_time_hhmm(input: &str) -> Result<NaiveTime, ParseError> {
 
 /// Parse datetime in YYMMDDHHMM format
 pub fn parse_datetime_yymmddhhmm(input: &str) -> Result<NaiveDateTime, ParseError> {
-    if input.len() != 10 {
+    if input.len() != 10 || !input.is_ascii() {
         return Err(ParseError::InvalidFormat {
             message: format!(
                 "DateTime must be in YYMMDDHHMM format (10 digits), found {} characters",
@@ -677,7 +677,7 @@ pub fn normalize_text(input: &str) -> String {
 /// Validate IBAN format
 pub fn validate_iban(iban: &str) -> Result<(), ParseError> {
     // Basic IBAN validation (simplified)
-    if iban.len() < 15 || iban.len() > 34 {
+    if iban.len() < 15 || iban.len() > 34 || !iban.is_ascii() {
         return Err(ParseError::InvalidFormat {
             message: format!(
                 "IBAN must be between 15 and 34 characters, found {}",
